@@ -8,10 +8,10 @@
     (output index in range, at least one output, multi-output sub recipes only
     as roots) and every reference, at any depth, embeds a value Leibniz-equal
     to a sub recipe that is the root of an earlier tree.
-    Proofs: Proofs/CompilerInv{Size,Names,Defs,Pass1,Pass2,Main}.v. *)
+    Proofs: Proofs/CompilerInv{Size,Names,Defs,Sub,Pass1,Pass1U,Pass2,Main}.v. *)
 From Coq Require Import List ZArith NArith Bool String.
-From RG Require Import Base.Str Base.Num Model.Recipe Model.Compiler Model.CompilerInst Spec.Valid
-  Proofs.RecipeValid Proofs.CompilerInvMain.
+From RG Require Import Base.Str Base.Num Model.Recipe Model.Units Model.Compiler Model.CompilerInst Spec.Valid
+  Proofs.RecipeValid Proofs.CompilerInvSize Proofs.CompilerInvDefs Proofs.CompilerInvSub Proofs.CompilerInvMain.
 Import ListNotations.
 Open Scope string_scope.
 
@@ -41,6 +41,37 @@ Theorem C01inv_strictly_valid :
 Proof. exact compile_strictly_valid. Qed.
 Print Assumptions C01inv_strictly_valid.
 
+(** (G2, second half) output names are unique ignoring case and outer blanks.
+    [root_keys lower bs] is the list, in order, of the normalised output names
+    ([normalise_output_name lower], i.e. [name.strip().lower()]) of all sub
+    recipe roots of all blocks:
+      [flat_map (fun x => map (normalise_output_name lower) (names_of x)) (concat bs)]
+    with [names_of (SubRecipe _ ns _) = ns] and [[]] for other roots.
+    No two positions of that list hold names that are [==] ([svs_eqb]). *)
+Theorem C01inv_names_unique :
+  forall convert tol lower p bs,
+  compile_ast convert tol lower p = COk bs ->
+  forall i j k1 k2,
+    nth_error (root_keys lower bs) i = Some k1 -> nth_error (root_keys lower bs) j = Some k2 ->
+    svs_eqb k1 k2 = true -> i = j.
+Proof.
+  intros convert tol lower p bs H i j k1 k2. apply kd_nth.
+  exact (compile_names_unique convert tol lower p bs H).
+Qed.
+Print Assumptions C01inv_names_unique.
+
+(** (G2) both halves together. *)
+Theorem C01inv_compile_ok :
+  forall convert tol lower p bs,
+  compile_ast convert tol lower p = COk bs ->
+  strictly_valid bs /\ kd (root_keys lower bs).
+Proof.
+  intros convert tol lower p bs H. split;
+    [exact (compile_strictly_valid convert tol lower p bs H)
+    | exact (compile_names_unique convert tol lower p bs H)].
+Qed.
+Print Assumptions C01inv_compile_ok.
+
 (** Non-vacuity: a program with a folded definition, a kept (twice used)
     definition and a reference across the fold is accepted. *)
 Definition c01inv_example : list (list astmt) :=
@@ -50,8 +81,19 @@ Definition c01inv_example : list (list astmt) :=
        [ARef [PStr (s "spam")] None 4%N; ARef [PStr (s "eggs")] None 5%N; ARef [PStr (s "eggs")] None 6%N])]].
 
 Example C01inv_example_accepted :
-  exists bs, compile_ast_inst c01inv_example = COk bs /\ List.length (hd [] bs) = 2%nat /\ strictly_valid bs.
-Proof.
-  eexists. split; [vm_compute; reflexivity|]. split; [reflexivity|].
-  eapply C01inv_strictly_valid. vm_compute. reflexivity.
-Qed.
+  match compile_ast_inst c01inv_example with
+  | COk bs => List.length (hd [] bs) = 2%nat
+  | _ => False
+  end.
+Proof. vm_compute. reflexivity. Qed.
+
+Example C01inv_example_valid :
+  forall bs, compile_ast_inst c01inv_example = COk bs -> strictly_valid bs.
+Proof. intro bs. apply C01inv_strictly_valid. Qed.
+
+Example C01inv_example_keys :
+  match compile_ast_inst c01inv_example with
+  | COk bs => root_keys Units.py_lower bs = [[PStr (s "eggs")]]
+  | _ => False
+  end.
+Proof. vm_compute. reflexivity. Qed.
